@@ -8,7 +8,7 @@ COQ_DIRS = PC.COQ_DIRS
 RULE = ("histories of kernel events (spawn/exit->zombie/reap/PID reuse/clock steps of -100000..10^9 s) and psutil calls over PIDs "
         "{0,1,2,3,7,2^31-1}, start ticks from 21 values (bases 0..2^40, 10^12, each +0/+1/+2) with PID reuse at adjacent ticks (p=0.6), process names with 0-3 blanks/parentheses/15 bytes, thread-count changes, drawn from a weighted grammar with motifs 'clock step, "
         "boot_time(), second object for the same process, ==/hash/is_running' and 'process ends, queries, PID reused, "
-        "is_running/==/hash between old and new object'; wait()/wait_procs() through the real wait_pid with the PID invisible to os.kill/os.waitpid in the caller's namespace (foreign procfs) followed by is_running/==/hash on that and on fresh objects; objects built while /proc/<pid>/stat is unreadable (EACCES; identity (pid, None)) with hash() before/after the file becomes readable and is_running() is called, PID reuse in between, ==/hash against fresh objects both ways; process_iter() generators suspended before a recycled PID whose cached object is then found stale (binding of every held object checked after every event); two PIDs spawned with the same start tick, == against non-Process operands (int = pid, tuple = _ident, object(), None, str, float), psutil.Popen objects without identity later compared with the owner of their PID; objects also come from process_iter() and psutil.Popen; calls also inside oneshot() blocks. Class = most specific feature "
+        "is_running/==/hash between old and new object'; copies of Process objects (copy.copy / copy.deepcopy / pickle round trip / pickle dumped while alive and loaded after the PID was recycled; what the tree under test supports is probed) made from live and from stale originals, then ==/hash/is_running/signals/setters on the copy; wait()/wait_procs() through the real wait_pid with the PID invisible to os.kill/os.waitpid in the caller's namespace (foreign procfs) followed by is_running/==/hash on that and on fresh objects; objects built while /proc/<pid>/stat is unreadable (EACCES; identity (pid, None)) with hash() before/after the file becomes readable and is_running() is called, PID reuse in between, ==/hash against fresh objects both ways; process_iter() generators suspended before a recycled PID whose cached object is then found stale (binding of every held object checked after every event); two PIDs spawned with the same start tick, == against non-Process operands (int = pid, tuple = _ident, object(), None, str, float), psutil.Popen objects without identity later compared with the owner of their PID; objects also come from process_iter() and psutil.Popen; calls also inside oneshot() blocks. Class = most specific feature "
         "reached (eq-same-pid-other-proc, isrun-reused, clock, eq-same-proc, ...). Non-trivial = some ==/hash/is_running on an "
         "object was executed; distinct = distinct canonical history.")
 TRUSTED = PC.TRUSTED
@@ -16,6 +16,12 @@ ASSUMPTIONS = PC.ASSUMPTIONS
 EXHAUSTIVE = {}
 SPEC_KINDS = ("isrun", "eq", "hasheq", "eqother", "bind", "waitprocs")
 N = {"quick": 900, "thorough": 14000, "search": 2500}
+
+
+def gen_tables(impl_dir, out_dir):
+    """no table of its own: probes which object protocols (copy/deepcopy/pickle) the tree under test supports"""
+    PC.probe_copy_support(impl_dir)
+    return None
 
 
 def gen_cases(rng, tier):
